@@ -10,7 +10,7 @@ import lib
 from props import fsx
 
 ID = 'C13'
-GEN_FILES = ['T_files_build', 'T_files_file', 'T_build_do']
+GEN_FILES = ['T_file_proto', 'T_build_do']
 COQ_PROPERTY = 'theories/Properties/C13.vo'
 COQ_EXTRA = []
 MODEL = ('ExC13', 'c13_main.ml')
